@@ -6,6 +6,7 @@ package main
 //   random - seeded long histories in a larger universe with hostile arguments
 
 import (
+	"fmt"
 	"math"
 	"math/rand"
 	"reflect"
@@ -126,6 +127,7 @@ func step(x Inst, c Call, rs int, pre Ev, extra Ev) (post Ev) {
 		e["pre"] = 0
 	}
 	fp0 := fullFP(x)
+	noteCase(x.Kind(), fmt.Sprint(x.Cfg()), fp0, c.key())
 	var r []any
 	ci := invoke(e, func() { r = x.Do(c) })
 	fp1 := fullFP(x)
